@@ -42,7 +42,7 @@ UNIT = Unit(
            closures=[Closure(0, "e: stdcode::DeError", "(r: StateError)", ensures=[C("maperr", "r is InvalidMelPoW", "C18")])]),
     ],
     findings=[
-        Finding("F-C09-melpow", A + "::validate_and_get_doscmint_speed", ("C09", "C18"), [], expect_clause="safety",
+        Finding("F-C09-melpow", A + "::validate_and_get_doscmint_speed", ("C09", "C18"), [], expect_clause="safety", must_hold=["c18", "err"],
                 what="melpow::Proof::verify is not total: a DoscMint whose payload has difficulty 0 or > 64, or whose proof lacks the zero node or a sibling node, makes it panic"),
     ],
 )
